@@ -61,7 +61,7 @@ theorem gen_free_interestRate : Gen.Arith.freeOf "interestRateComputation" =
 
 /-- the guards in front of `Borrow`'s effects, as the source has them now, let a borrow through only under the 90 % cap — whatever
 the vault's parameters are (they read `TotalValue` and the vault's balance, nothing else). -/
-theorem gen_borrow_cap (s : St) (amt : Int) (h : Gen.Arith.borrowGuards false s.tv s.cash amt = .ok ()) :
+theorem gen_borrow_cap (s : St) (amt : Int) (h : Gen.Arith.borrowGuards false s.tv s.cash amt = .ok true) :
     10 * (s.tv - s.cash + amt) ≤ 9 * s.tv := by
   unfold Gen.Arith.borrowGuards at h
   simp only [Bool.false_eq_true, if_false] at h
@@ -85,8 +85,8 @@ theorem gen_borrow_cap (s : St) (amt : Int) (h : Gen.Arith.borrowGuards false s.
   omega
 
 /-- … and refuse it with `ErrMaxBorrowAmount` above the cap (when the 2^256 range assertions hold). -/
-theorem gen_borrow_refused (s : St) (amt : Int) (r : Except Amm.Err Unit) (hr : Gen.Arith.borrowGuards false s.tv s.cash amt = r)
-    (h : 10 * (s.tv - s.cash + amt) > 9 * s.tv) : r ≠ .ok () := by
+theorem gen_borrow_refused (s : St) (amt : Int) (r : Except Amm.Err Bool) (hr : Gen.Arith.borrowGuards false s.tv s.cash amt = r)
+    (h : 10 * (s.tv - s.cash + amt) > 9 * s.tv) : r ≠ .ok true := by
   intro hok
   rw [hok] at hr
   have := gen_borrow_cap s amt hr
